@@ -43,7 +43,7 @@ def run_e2(hbin, model, runs, par=4, timeout_s=300, ld=None):
 
 def classify_e2(r):
     v = r['verdict']
-    if r['rc'] == -999:
+    if r['rc'] == -999 or ' inconclusive ' in v:
         return 'stall'
     if 'monitors FAIL' in v or 'crash' in r['raw'][-200:]:
         return 'monitor'
